@@ -24,7 +24,7 @@ var assumptions = []string{
 var sess *vf.Session
 
 func opts() restarteng.GenOpts {
-	o := restarteng.GenOpts{MaxTables: 4, MaxCols: 4, SpecialKind: []string{dbh.IdxUniqSkip, dbh.IdxBtree, dbh.IdxHash}, Prof: sqlgen.Profile{MaxStr: 60}, BigJoinPct: 4, BigLogPct: 3}
+	o := restarteng.GenOpts{MaxTables: 4, MaxCols: 4, SpecialKind: []string{dbh.IdxUniqSkip, dbh.IdxBtree, dbh.IdxHash}, Prof: sqlgen.Profile{MaxStr: 60}, BigJoinPct: 4, EmptyFirstPct: 4, BigLogPct: 3}
 	if sess != nil && sess.Tier == "thorough" {
 		o.ChurnPct = 2 // (too expensive for the quick tier) a helper table is filled and thinned out: index nodes run empty, page ids are recycled
 	}
